@@ -13,7 +13,7 @@ META = {
     'floors': {'compiled': 30, 'runs_compared': 200},
 }
 
-SIZES = {'quick': 2400, 'thorough': 60000}
+SIZES = {'quick': 7200, 'thorough': 60000}
 
 def judge(ctx, cfg, body, req, resp, tag='TL'):
     """Returns True if the case counted as an evaluation."""
